@@ -45,6 +45,9 @@ C19(r) == LET o == r.obs IN
     /\ ~o.timedOut /\ ~o.crashText
     /\ o.exit >= 0
     /\ (o.exit # 0) => o.stderrLen > 0
+    \* exit 0 means output was produced
+    /\ (o.exit = 0 /\ r.sc.out = "stdout") => o.stdoutHasSource
+    /\ (o.exit = 0 /\ r.sc.out # "stdout") => (o.outKind = "file" /\ o.outHasSource)
     \* where the lookup of an argument is what fails (per spec/Cli.tla), the diagnostic names that argument
     /\ (o.exit # 0 /\ r.pred.stderr \in {"notfound", "notiface"}) => o.stderrNamesArg
 
